@@ -22,6 +22,7 @@ pub fn replay(beh: &Value) -> Value {
         "filter1" => replay_filter1(beh),
         "dist1" => replay_dist1(beh),
         "refidx" => replay_refidx(beh),
+        "map1" => replay_map1(beh),
         "idx" => replay_idx(beh),
         "dispatch" => replay_dispatch(beh),
         _ => json!({"ok": false, "kind": kind, "why": "unknown replay kind"}),
@@ -284,6 +285,35 @@ fn replay_dist1(beh: &Value) -> Value {
         }
     }
     verdict("dist1", true, "", Value::Null, Value::Null)
+}
+
+/// One end-to-end mapping: {k, rc, contigs, table, ambig_mask, repeat_mask, aln} through RefSka::new + map + write_aln
+/// (and write_vcf, which must not fail); the printed row must be the declarative alignment.
+fn replay_map1(beh: &Value) -> Value {
+    use std::io::Write;
+    let dir = if std::path::Path::new("/dev/shm").is_dir() { "/dev/shm" } else { "/tmp" };
+    let path = format!("{}/skav-map1-{}-{:?}.fa", dir, std::process::id(), std::thread::current().id());
+    {
+        let mut f = std::fs::File::create(&path).expect("create ref fasta");
+        for (i, c) in beh["contigs"].as_array().unwrap().iter().enumerate() {
+            let bytes = crate::util::bytes_of(c);
+            writeln!(f, ">c{}", i).unwrap();
+            // (an empty contig is a header followed by an empty line; a header at the very end of the file is not a record)
+            f.write_all(&bytes).unwrap();
+            writeln!(f).unwrap();
+        }
+    }
+    let obs = ops::exec(&json!({"op": "map", "w": 64, "table": beh["table"], "file": path, "ambig_mask": beh["ambig_mask"],
+                                "repeat_mask": beh["repeat_mask"], "threads": 1}));
+    let _ = std::fs::remove_file(&path);
+    if obs["panic"].as_str().unwrap_or("") != "" {
+        return verdict("map1", false, "panic in RefSka::new / map / write_aln / write_vcf", beh["aln"].clone(), obs);
+    }
+    let got = obs["aln"]["seqs"].as_array().and_then(|a| a.first().cloned()).unwrap_or(Value::Null);
+    if got != beh["aln"] {
+        return verdict("map1", false, "mapped alignment differs from the declarative one", beh["aln"].clone(), got);
+    }
+    verdict("map1", true, "", Value::Null, Value::Null)
 }
 
 /// Reference index behaviour: {k, rc, contigs:[[bytes]], index:[[km,mid,pos,chrom,isrc]], repeats:[abs], coords:[[chrom,pos]]}
